@@ -1,6 +1,6 @@
 SPECIFICATION Spec
 CONSTANTS
-  MCItems = {1, 2, 3, 4, 5, 8, 9, 12, 13, 16, 17, 19, 20, 27, 30, 31, 45, 48, 49, 52, 53, 59, 62, 63, 66, 81, 84, 85, 96, 110, 205, 474, 475, 1000, 2035, 3000, 4001, 5555, 6002, 7003, 8000}
+  MCItems = {1, 3, 4, 5, 8, 12, 13, 17, 20, 48, 49, 59, 63, 66, 81, 85, 110, 474, 2035, 4001, 6002, 8000}
   MCItems3 = {1, 3, 5, 12, 48}
   MCWords = {0, 1, 2, 3, 4, 5, 6, 7, 8, 9, 10, 11, 12, 13, 14, 15, 16, 17, 18, 19, 20, 21, 22, 23, 24, 25, 26, 27, 28, 29, 30, 31, 32, 33, 34, 35, 36, 37, 38, 39}
 INVARIANT LexFirst
@@ -8,4 +8,6 @@ INVARIANT GreedyLang
 INVARIANT Tiles
 INVARIANT AtomicSound
 INVARIANT ElemOnlySub
+INVARIANT AtomicNoopFlat
+INVARIANT WalkIsSpec
 CHECK_DEADLOCK FALSE
